@@ -88,17 +88,23 @@ def run_runtime(rep, pid, premise, theorem_apps, configs, search=None, search_wh
             ok = ok2 if (ok or isinstance(ok2, dict)) else ok
             if isinstance(ok, dict):
                 # the property's own oracle evaluated on the real expansion fails: that input is the failing input
-                rep.violation("inst_%s_%d" % (c["label"], j), dict(ok, attr=c["attr"], item=c["item"], kind=c["kind"], model_index=j), found=True)
+                fnd = ok.pop("_found", True)
+                rep.violation("inst_%s_%d" % (c["label"], j), dict(ok, attr=c["attr"], item=c["item"], kind=c["kind"], model_index=j), found=fnd)
                 continue
         if ok:
             good.append(k)
             continue
-        found = (bool(search) and r.get("search", "[]") != "[]") or ("Some" in r.get("dfs", ""))
+        # `[(0, 0, 0)]` is c20_search's marker "the scenario could not be set up on this model" (no anomaly)
+        found = (bool(search) and r.get("search", "[]") not in ("[]", "[(0, 0, 0)]")) or ("Some" in r.get("dfs", ""))
+        # a method body the translator could not read is a placeholder in the model: what the model-side search finds on it says nothing about the code
+        unread = "(BUnknown" in terms[k]
+        found = found and not unread
         rep.violation("inst_%s_%d" % (c["label"], j), {
             "what": "instance premise no longer checks: %s = %s" % (premise, r["wf"]),
             "attr": c["attr"], "item": c["item"], "kind": c["kind"], "model_index": j,
             "model_side_search": {"scenario": search_what, "anomalies": r.get("search"),
                                   "dfs (method, schedule: 0 = actor step, t+1 = step of client t; 3 clients call the method once each)": r.get("dfs")},
+            "unread_bodies": unread,
             "theorem": "premise %s inst = true of the theorems in Properties/%s.v" % (premise, pid)}, found=found)
     ok, out = inst.prove_instances(pid, mod, good, premise, theorem_apps, extra_imports="From IT Require Import Properties.%s.\n" % pid + imports)
     for _ in good:
